@@ -132,4 +132,77 @@ Proof.
   eapply msp_ext; [exact Hp|]. intros i j Hi Hj. cbn beta. now apply sum_n_delta.
 Qed.
 
+
+(* ---- sums over a commutative ring ---- *)
+Lemma sum_n_zero n : sum_n (A:=A) n (fun _ => zero) = zero.
+Proof. induction n as [|n IH]; cbn; auto. rewrite IH. ring. Qed.
+Lemma sum_n_add n (f g : nat -> T) : sum_n n (fun k => add (f k) (g k)) = add (sum_n n f) (sum_n n g).
+Proof. induction n as [|n IH]; cbn; [ring|]. rewrite IH. ring. Qed.
+Lemma sum_n_mul_r n (f : nat -> T) x : sum_n n (fun k => mul (f k) x) = mul (sum_n n f) x.
+Proof. induction n as [|n IH]; cbn; [ring|]. rewrite IH. ring. Qed.
+Lemma sum_n_mul_l n (f : nat -> T) x : sum_n n (fun k => mul x (f k)) = mul x (sum_n n f).
+Proof. induction n as [|n IH]; cbn; [ring|]. rewrite IH. ring. Qed.
+Lemma sum_n_swap n q (f : nat -> nat -> T) :
+  sum_n n (fun i => sum_n q (fun j => f i j)) = sum_n q (fun j => sum_n n (fun i => f i j)).
+Proof.
+  induction n as [|n IH]; cbn [sum_n].
+  - now rewrite sum_n_zero.
+  - rewrite IH. now rewrite <- sum_n_add.
+Qed.
+
+(* (A B) C = A (B C), as the code computes the four products; every conformable shape *)
+Lemma mat_mul_assoc (a b c : matrix) : wf a -> wf b -> wf c -> cols a = rows b -> cols b = rows c ->
+  exists ab bc p, mat_mul a b = Ok ab /\ mat_mul b c = Ok bc /\ mat_mul ab c = Ok p /\ mat_mul a bc = Ok p.
+Proof.
+  intros Ha Hb Hc Hab Hbc.
+  assert (Hb' : msp (cols a) (cols b) (entry b) b) by (rewrite Hab; now apply msp_self).
+  assert (Hc' : msp (cols b) (cols c) (entry c) c) by (rewrite Hbc; now apply msp_self).
+  destruct (mat_mul_msp _ _ _ _ _ a b (msp_self a Ha) Hb') as (ab & E1 & Hab').
+  destruct (mat_mul_msp _ _ _ _ _ b c Hb' Hc') as (bc & E2 & Hbc').
+  destruct (mat_mul_msp _ _ _ _ _ ab c Hab' Hc') as (p & E3 & Hp).
+  destruct (mat_mul_msp _ _ _ _ _ a bc (msp_self a Ha) Hbc') as (p' & E4 & Hp').
+  exists ab, bc, p. repeat split; auto. rewrite E4. f_equal.
+  apply (msp_unique _ _ _ p' p Hp'). eapply msp_ext; [exact Hp|].
+  intros i j Hi Hj. cbn beta.
+  rewrite (sum_n_ext (cols b) _ (fun l => sum_n (cols a) (fun k => mul (entry a i k) (mul (entry b k l) (entry c l j))))).
+  - rewrite sum_n_swap. apply sum_n_ext. intros k Hk. now rewrite sum_n_mul_l.
+  - intros l Hl. rewrite <- sum_n_mul_r. apply sum_n_ext. intros k Hk. ring.
+Qed.
+
+(* (A B)^T = B^T A^T *)
+Lemma mat_mul_transpose (a b : matrix) : wf a -> wf b -> cols a = rows b ->
+  exists p ta tb tp, mat_mul a b = Ok p /\ transpose a = Ok ta /\ transpose b = Ok tb /\
+                     transpose p = Ok tp /\ mat_mul tb ta = Ok tp.
+Proof.
+  intros Ha Hb Hab. unfold transpose.
+  assert (Hb' : msp (cols a) (cols b) (entry b) b) by (rewrite Hab; now apply msp_self).
+  destruct (mat_mul_msp _ _ _ _ _ a b (msp_self a Ha) Hb') as (p & E1 & Hp).
+  destruct (transpose_in_place_msp _ _ _ a (msp_self a Ha)) as (ta & E2 & Hta).
+  destruct (transpose_in_place_msp _ _ _ b Hb') as (tb & E3 & Htb).
+  destruct (transpose_in_place_msp _ _ _ p Hp) as (tp & E4 & Htp).
+  destruct (mat_mul_msp _ _ _ _ _ tb ta Htb Hta) as (q & E5 & Hq).
+  exists p, ta, tb, tp. repeat split; auto. rewrite E5. f_equal.
+  apply (msp_unique _ _ _ q tp Hq). eapply msp_ext; [exact Htp|].
+  intros i j Hi Hj. cbn beta. apply sum_n_ext. intros k Hk. ring.
+Qed.
+
+(* A (B + C) = A B + A C *)
+Lemma mat_mul_add_distr_l (a b c : matrix) : wf a -> wf b -> wf c -> cols a = rows b ->
+  rows b = rows c -> cols b = cols c ->
+  exists s ab ac p, madd b c = Ok s /\ mat_mul a b = Ok ab /\ mat_mul a c = Ok ac /\
+                    mat_mul a s = Ok p /\ madd ab ac = Ok p.
+Proof.
+  intros Ha Hb Hc Hab Hr Hcc.
+  assert (Hb' : msp (cols a) (cols b) (entry b) b) by (rewrite Hab; now apply msp_self).
+  assert (Hc' : msp (cols a) (cols b) (entry c) c) by (rewrite Hab, Hr, Hcc; now apply msp_self).
+  destruct (madd_msp _ _ _ _ b c Hb' Hc') as (s & E1 & Hs).
+  destruct (mat_mul_msp _ _ _ _ _ a b (msp_self a Ha) Hb') as (ab & E2 & Hab').
+  destruct (mat_mul_msp _ _ _ _ _ a c (msp_self a Ha) Hc') as (ac & E3 & Hac').
+  destruct (mat_mul_msp _ _ _ _ _ a s (msp_self a Ha) Hs) as (p & E4 & Hp).
+  destruct (madd_msp _ _ _ _ ab ac Hab' Hac') as (q & E5 & Hq).
+  exists s, ab, ac, p. repeat split; auto. rewrite E5. f_equal.
+  apply (msp_unique _ _ _ q p Hq). eapply msp_ext; [exact Hp|].
+  intros i j Hi Hj. cbn beta. rewrite <- sum_n_add. apply sum_n_ext. intros k Hk. ring.
+Qed.
+
 End MatRing.
